@@ -563,7 +563,12 @@ impl PG<'_> {
         let mut items = vec![atom_json(&[op])];
         for i in 0..arity {
             let it = match (op, i) {
-                (22 | 23, 1) => q(int_atom(self.r.range(-40, 40))),
+                (22 | 23, 1) => q(int_atom(if self.r.chance(1, 2) { *self.r.pick(&[7i64, 8, 15, 16, 23, 24, 1, -1, -7, -8, 9]) } else { self.r.range(-40, 40) })),
+                (22 | 23, 0) if self.r.chance(1, 2) => {
+                    let k = self.r.below(33) as u32;
+                    let v: i64 = 1i64 << k;
+                    q(int_atom(match self.r.below(4) { 0 => -v, 1 => v - 1, 2 => -(v - 1) - 2, _ => v }))
+                }
                 (12, 1) | (12, 2) => q(int_atom(self.r.range(-1, 8))),
                 (5 | 6, 0) if self.r.chance(1, 2) => q(rand_tree(self.r, 7, 4, 10)),
                 _ => self.expr(depth - 1),
@@ -635,6 +640,79 @@ impl PG<'_> {
                 list_json(&items)
             }
             _ => self.expr(depth.min(2)),
+        }
+    }
+
+    /// programs aimed at heap reclamation (C04): a GC-candidate operator whose argument evaluation allocates
+    /// more than the 1024-byte saving threshold and whose RESULT is, in turn, a value that existed before
+    /// (NoReplace), a substring view of old bytes (AfterOldBytes), a new atom of <= 48 / 49+ bytes (clone /
+    /// abort), a pair (abort), nil; nested candidates; candidates inside guards and failing afterwards.
+    /// The environment is expected to be (A B C . rest) with heap atoms A (43 bytes), B (60 bytes), C small.
+    fn gc_expr(&mut self, depth: u32) -> Value {
+        let path_a = atom_json(&[2]);
+        let path_b = atom_json(&[5]);
+        // something that allocates a lot: concat of many copies, or a long cons chain
+        let big = |s: &mut Self| -> Value {
+            let n = 20 + s.r.below(30) as usize;
+            match s.r.below(3) {
+                0 => {
+                    let mut items = vec![atom_json(&[14])];
+                    for _ in 0..n {
+                        items.push(if s.r.chance(1, 2) { path_a.clone() } else { path_b.clone() });
+                    }
+                    list_json(&items)
+                }
+                1 => {
+                    // (c x (c x (c x ... ()))) : many pairs
+                    let mut t = q(atom_json(&[]));
+                    for _ in 0..(n * 4) {
+                        t = list_json(&[atom_json(&[4]), atom_json(&[2]), t]);
+                    }
+                    t
+                }
+                _ => {
+                    // many new atoms: (+ (q . big) i) ...
+                    let mut items = vec![atom_json(&[4])];
+                    let mut t = q(atom_json(&[]));
+                    for i in 0..(n * 3) {
+                        t = list_json(&[atom_json(&[4]), list_json(&[atom_json(&[16]), q(atom_json(&[0x10, 0, 0, 0, 0, i as u8])), q(int_atom(i as i64))]), t]);
+                    }
+                    items.clear();
+                    t
+                }
+            }
+        };
+        let result = |s: &mut Self| -> Value {
+            match s.r.below(9) {
+                0 => list_json(&[atom_json(&[12]), path_a.clone(), q(int_atom(s.r.range(0, 20))), q(int_atom(s.r.range(20, 43)))]), // substr of old bytes
+                1 => list_json(&[atom_json(&[12]), path_b.clone(), q(int_atom(s.r.range(0, 4)))]),
+                2 => path_a.clone(),                                                     // existed before
+                3 => list_json(&[atom_json(&[11]), path_a.clone()]),                     // new 32-byte atom (clonable)
+                4 => list_json(&[atom_json(&[14]), path_a.clone(), q(atom_json(&s.r.bytes(5)))]),   // 48 bytes
+                5 => list_json(&[atom_json(&[14]), path_a.clone(), q(atom_json(&s.r.bytes(6)))]),   // 49 bytes
+                6 => list_json(&[atom_json(&[4]), path_a.clone(), path_b.clone()]),      // a pair
+                7 => q(atom_json(&[])),
+                _ => list_json(&[atom_json(&[16]), q(int_atom(s.r.range(0, 1000))), q(int_atom(1))]),
+            }
+        };
+        // (a (q . (f (c RESULT BIG))) 1)  -- `a` is a GC candidate; its body builds BIG and returns RESULT
+        let b = big(self);
+        let r = result(self);
+        let body = match self.r.below(3) {
+            0 => list_json(&[atom_json(&[5]), list_json(&[atom_json(&[4]), r, b])]),
+            1 => list_json(&[atom_json(&[6]), list_json(&[atom_json(&[4]), b, r])]),
+            _ => list_json(&[atom_json(&[3]), list_json(&[atom_json(&[7]), b]), r, q(atom_json(&[]))]),
+        };
+        let inner = list_json(&[atom_json(&[2]), q(body), atom_json(&[1])]);
+        match self.r.below(6) {
+            0 if depth > 0 => {
+                // use the result again outside, with another candidate around
+                let other = self.gc_expr(depth - 1);
+                list_json(&[atom_json(&[4]), inner, other])
+            }
+            1 => list_json(&[atom_json(&[13]), inner]),      // strlen of the (possibly replaced) result
+            2 => list_json(&[atom_json(&[8]), inner]),       // fail afterwards
+            _ => inner,
         }
     }
 
@@ -1021,13 +1099,18 @@ fn main() {
                 let depth = 1 + pg.r.below(4) as u32;
                 let p = match profile.as_str() {
                     "C05" => pg.fast_expr(depth),
+                    "C04" if pg.r.chance(1, 2) => pg.gc_expr(1),
                     "C31" | "C08" => {
                         let g = pg.guard(depth);
                         if pg.r.chance(1, 2) { list_json(&[atom_json(&[4]), g, pg.expr(1)]) } else { g }
                     }
                     _ => pg.expr(depth),
                 };
-                let e = if profile == "C05" && pg.r.chance(1, 2) {
+                let e = if profile == "C04" {
+                    let a43 = pg.r.bytes(43);
+                    let b60 = pg.r.bytes(60);
+                    json!({"f": atom_json(&a43), "r": {"f": atom_json(&b60), "r": {"f": int_atom(7), "r": atom_json(&[])}}})
+                } else if profile == "C05" && pg.r.chance(1, 2) {
                     // a right-deep and left-deep environment so long paths resolve
                     let mut t = atom_json(&[0x2a]);
                     for i in 0..26 {
